@@ -56,7 +56,7 @@ CLAIMS = {
    note=TB + "That every subset compiles is established only for the built ones; perl's sort is assumed stable (ties between the two empty prefixes).",
    technique="Lean 4 proof by exhaustive kernel evaluation over all 2^16 configurations + real per-configuration builds", ref="DESIGN.md §6 C19"),
  "C20": dict(
-   text="Lean theorems decided over tables regenerated from the tree (crypt.h probe, readelf of the freshly linked .so): struct layout 32768/0,384,768,1280,2047,2048 with no padding, all public constants equal to the released header's, every released (symbol, version, default) triple still exported, released alias classes preserved, compat names alias their modern counterparts. A client compiled against the released <crypt.h> runs against the fresh and the released libcrypt.so.1; results are compared with each other and with the model.",
+   text="Lean theorems decided over tables regenerated from the tree (crypt.h probe, readelf of the freshly linked .so): struct layout 32768/0,384,768,1280,2047,2048 with no padding, all public constants equal to the released header's, every released (symbol, version, default) triple still exported, released alias classes preserved, compat names alias their modern counterparts. A client compiled against the released <crypt.h> runs against the fresh and the released libcrypt.so.1; results are compared with each other and with the model. The tree's version-map generator is additionally run for every compat flavour (yes, glibc, alt, owl, suse) x two symbol-version floors and compared, symbol by symbol, with an independent reading of libcrypt.map.in.",
    note=TB + "Released facts (libxcrypt 4.4.33, Debian) are committed under /verif/ref; calling conventions and libc ABI are the toolchain's.",
    technique="Lean 4 proof (decide over generated ABI tables) + old-header client differential run", ref="DESIGN.md §6 C20"),
  "C14": dict(
@@ -65,7 +65,7 @@ CLAIMS = {
    technique="Lean 4 proof (state machine with allocator oracle) + ledger correspondence over random histories", ref="DESIGN.md §6 C14"),
  "C15": dict(
    text="Lean theorems: every hashing call issues 0 or exactly 2 allocator/mapper requests (mmap + munmap, yescrypt family only), crypt_ra at most one; a failed crypt_ra request leaves pair, ledger and result as documented. Fault enumeration: for every call of a corpus covering all methods and entry points each single request position fails in turn; ledger balance, errno, result, scratch wipe and the behaviour of the next call are checked on the implementation and compared with the model.",
-   note=TB + "A failing munmap leaves a mapping the library no longer controls (reported as leak=1 by model and implementation alike, stated rather than excluded); the >=32 MiB huge-page retry and pairs of faults are not enumerated in the quick tier.",
+   note=TB + "A failing munmap leaves a mapping the library no longer controls (reported as leak=1 by model and implementation alike, stated rather than excluded); the >=32 MiB huge-page retry (two requests per region) is not in the model: it is exercised by an implementation-only sweep (three settings x fault positions 1..4: process survives, ENOMEM, failure token, nothing left mapped) in both tiers.",
    technique="Lean 4 proof (partial) + exhaustive single-fault enumeration through --wrap", ref="DESIGN.md §6 C15"),
  "C04": dict(
    text="Lean theorems: every scratch structure fits the aligned scratch area (sizes from the tree), every successful result of every method is NUL-terminated inside the 384-byte output field (incl. the repaired sha1crypt bound), every crypt_gensalt_rn write is below max(output_size,0), too-small/negative crypt_rn sizes write only the fitting token and never touch the scratch areas. ASan+UBSan build: exact-size objects at all 16 alignments with canary application fields, exact-size argument blocks, grammar-shaped / mutated / 40-100 kB settings, phrases to 5000 bytes, integer boundary values, gensalt sizes and nrbytes grids; every sanitizer report is attributed to the operation that caused it.",
